@@ -12,7 +12,70 @@ def inWindow (l u : Bool) (lb ub : Bound) (t : Int) : Bool := lbOk l lb t && ubO
 
 theorem filter_true' {α} (l : List α) : l.filter (fun _ => true) = l := by simp
 
-/-- with parsable brackets a single slice is the filter by the two masks, whichever branch the code takes -/
+theorem nonDecreasing_pairwise : ∀ (l : List Int), nonDecreasing l = true → l.Pairwise (· ≤ ·)
+  | [], _ => List.Pairwise.nil
+  | [_], _ => by simp
+  | a :: b :: rest, h => by
+    simp only [nonDecreasing, Bool.and_eq_true, decide_eq_true_eq] at h
+    have ih := nonDecreasing_pairwise (b :: rest) h.2
+    refine List.pairwise_cons.mpr ⟨?_, ih⟩
+    intro x hx
+    rcases List.mem_cons.mp hx with rfl | hx
+    · exact h.1
+    · have := List.rel_of_pairwise_cons ih hx; omega
+
+/-! ### the pandas label slice on a sorted index selects what the masks describe -/
+
+theorem dropWhile_sorted {α} (a : Int) : ∀ (df : Rows α), (df.map (·.1)).Pairwise (· ≤ ·) →
+    df.dropWhile (fun r => decide (r.1 < a)) = df.filter fun r => decide (a ≤ r.1)
+  | [], _ => rfl
+  | x :: xs, h => by
+    have hx : (∀ y ∈ xs.map (·.1), x.1 ≤ y) ∧ (xs.map (·.1)).Pairwise (· ≤ ·) := List.pairwise_cons.mp h
+    by_cases hxa : x.1 < a
+    · have : ¬ a ≤ x.1 := by omega
+      simp only [List.dropWhile_cons, hxa, decide_true, if_true, List.filter_cons, this, decide_false]
+      simpa using dropWhile_sorted a xs hx.2
+    · have hax : a ≤ x.1 := by omega
+      simp only [List.dropWhile_cons, hxa, decide_false, List.filter_cons, hax, decide_true, if_true]
+      simp only [Bool.false_eq_true, if_false, List.cons.injEq, true_and]
+      symm
+      rw [List.filter_eq_self]
+      intro y hy
+      have := hx.1 y.1 (List.mem_map.mpr ⟨y, hy, rfl⟩)
+      simp only [decide_eq_true_eq]; omega
+
+theorem takeWhile_sorted {α} (b : Int) : ∀ (df : Rows α), (df.map (·.1)).Pairwise (· ≤ ·) →
+    df.takeWhile (fun r => decide (r.1 ≤ b)) = df.filter fun r => decide (r.1 ≤ b)
+  | [], _ => rfl
+  | x :: xs, h => by
+    have hx : (∀ y ∈ xs.map (·.1), x.1 ≤ y) ∧ (xs.map (·.1)).Pairwise (· ≤ ·) := List.pairwise_cons.mp h
+    by_cases hxb : x.1 ≤ b
+    · simp only [List.takeWhile_cons, hxb, decide_true, if_true, List.filter_cons, List.cons.injEq, true_and]
+      exact takeWhile_sorted b xs hx.2
+    · simp only [List.takeWhile_cons, hxb, decide_false, List.filter_cons]
+      simp only [Bool.false_eq_true, if_false]
+      symm
+      rw [List.filter_eq_nil_iff]
+      intro y hy
+      have := hx.1 y.1 (List.mem_map.mpr ⟨y, hy, rfl⟩)
+      simp only [decide_eq_true_eq]; omega
+
+/-- on a non-decreasing index `df[lb:ub]` is the selection `lb ≤ t ≤ ub` (a missing label = no test) -/
+theorem labelSlice_eq_filter {α} (df : Rows α) (hs : (df.map (·.1)).Pairwise (· ≤ ·)) (a b : Option Int) :
+    labelSlice df a b = df.filter fun r =>
+      (match a with | some a => decide (a ≤ r.1) | Option.none => true) &&
+      (match b with | some b => decide (r.1 ≤ b) | Option.none => true) := by
+  have hsub : ∀ (p : Int × α → Bool), ((df.filter p).map (·.1)).Pairwise (· ≤ ·) :=
+    fun p => hs.sublist (List.Sublist.map _ List.filter_sublist)
+  cases a <;> cases b <;> simp only [labelSlice]
+  · simp [filter_true']
+  · rw [takeWhile_sorted _ _ hs]; simp
+  · rw [dropWhile_sorted _ _ hs]; simp
+  · rw [dropWhile_sorted _ _ hs, takeWhile_sorted _ _ (hsub _), List.filter_filter]
+    congr 1; funext r; exact Bool.and_comm _ _
+
+/-- with parsable brackets a single slice is the filter by the two masks, whichever branch the code takes:
+    the masks, or - both applicable brackets closed, index non-decreasing - the pandas label slice -/
 theorem sliceOne_eq {α} (df : Rows α) (lb ub : Bound) (oc : Option (List Char)) (l u : Bool)
     (h : brackets oc = .ok (l, u)) :
     sliceOne df lb ub oc = .ok (df.filter fun r => inWindow l u lb ub r.1) := by
@@ -26,10 +89,23 @@ theorem sliceOne_eq {α} (df : Rows α) (lb ub : Bound) (oc : Option (List Char)
       cases ub <;> simp [Bound.isNone] at h2
       simp only [inWindow, lbOk, ubOk, Bool.and_self]
       rw [filter_true']
-  · simp only [h, bind, Except.bind, pure, Except.pure, List.filter_filter, inWindow]
-    congr 2
-    funext r
-    exact Bool.and_comm _ _
+  · have hm : (df.filter fun r => lbOk l lb r.1).filter (fun r => ubOk u ub r.1) = df.filter fun r => inWindow l u lb ub r.1 := by
+      simp only [List.filter_filter, inWindow]
+      congr 1; funext r; exact Bool.and_comm _ _
+    simp only [h, bind, Except.bind, pure, Except.pure]
+    split
+    · rename_i hfast
+      simp only [Bool.and_eq_true, Bool.or_eq_true] at hfast
+      obtain ⟨⟨hl, hu⟩, hinc⟩ := hfast
+      have hs := nonDecreasing_pairwise _ hinc
+      split
+      · rename_i a b ha hb
+        rw [labelSlice_eq_filter df hs]
+        congr 2; funext r
+        cases lb <;> cases ub <;> simp [Bound.label] at ha hb <;> subst ha <;> subst hb <;>
+          simp_all [inWindow, lbOk, ubOk, Bound.isNone]
+      · rw [hm]
+    · rw [hm]
 
 theorem sliceOne_trivial {α} (df : Rows α) (oc : Option (List Char)) : sliceOne df .none .none oc = .ok df := by
   simp [sliceOne, Bound.isNone]
@@ -100,18 +176,6 @@ theorem tod_nonneg (t : Int) : 0 ≤ tod t := Int.emod_nonneg _ (by decide)
 theorem tod_lt (t : Int) : tod t < DAY := Int.emod_lt_of_pos _ (by decide)
 
 /-! ### stitching -/
-
-theorem nonDecreasing_pairwise : ∀ (l : List Int), nonDecreasing l = true → l.Pairwise (· ≤ ·)
-  | [], _ => List.Pairwise.nil
-  | [_], _ => by simp
-  | a :: b :: rest, h => by
-    simp only [nonDecreasing, Bool.and_eq_true, decide_eq_true_eq] at h
-    have ih := nonDecreasing_pairwise (b :: rest) h.2
-    refine List.pairwise_cons.mpr ⟨?_, ih⟩
-    intro x hx
-    rcases List.mem_cons.mp hx with rfl | hx
-    · exact h.1
-    · have := List.rel_of_pairwise_cons ih hx; omega
 
 theorem mapM_ok {α β} (f : α → Res β) (g : α → β) (h : ∀ x, f x = .ok (g x)) (l : List α) :
     l.mapM f = .ok (l.map g) := by
